@@ -658,3 +658,101 @@ func StrandTally(p *core.Prog, r *core.Report) {
 	}
 	r.Ok("STRAND-TALLY", key, p.Pos(fd.Pos()), fmt.Sprintf("correct verdict on all %d combinations", combos))
 }
+
+// CompleteWrappers decides COMPLETE-WRAPPERS on gts.asComplete: the markers
+// of a source feature are stripped whatever the location is wrapped in. The
+// kinds that can hold a Ranged inside - every Location type of package gts
+// that is a slice of Locations or a struct with a Location field - are read
+// off the package, and each must have a clause in asComplete's type switch
+// that converts the inner location(s) with asComplete. A kind that falls to
+// the default clause comes back as it went in: `source complement(1..20)`
+// sliced to [5,10) stays `complement(<1..>5)`.
+func CompleteWrappers(p *core.Prog, r *core.Report) {
+	r.Rule("COMPLETE-WRAPPERS", "gts.asComplete has, for every Location kind of package gts that contains Locations (slice of Location, struct with a Location field), a clause that converts the inner location(s) by a recursive call: the partial markers of a sliced source feature go whatever wraps the range", 3)
+	info := p.Info(core.PkgGts)
+	fd := p.FuncDecl(core.PkgGts, "asComplete")
+	if fd == nil || fd.Body == nil {
+		r.Und("COMPLETE-WRAPPERS", "gts.asComplete|anchor", "-", "anchor-unresolved")
+		return
+	}
+	pkg := p.Pkg(core.PkgGts).Types
+	locObj := pkg.Scope().Lookup("Location")
+	if locObj == nil {
+		r.Und("COMPLETE-WRAPPERS", "gts.Location|anchor", "-", "anchor-unresolved")
+		return
+	}
+	locIface, _ := locObj.Type().Underlying().(*types.Interface)
+	if locIface == nil {
+		r.Und("COMPLETE-WRAPPERS", "gts.Location|anchor", "-", "Location is not an interface")
+		return
+	}
+	isLoc := func(t types.Type) bool { return types.Identical(t, locObj.Type()) }
+	var wrappers []string
+	for _, name := range pkg.Scope().Names() {
+		tn, ok := pkg.Scope().Lookup(name).(*types.TypeName)
+		if !ok || tn.IsAlias() {
+			continue
+		}
+		t := tn.Type()
+		if _, isIface := t.Underlying().(*types.Interface); isIface {
+			continue
+		}
+		if !types.Implements(t, locIface) && !types.Implements(types.NewPointer(t), locIface) {
+			continue
+		}
+		holds := false
+		switch u := t.Underlying().(type) {
+		case *types.Slice:
+			holds = isLoc(u.Elem())
+		case *types.Struct:
+			for i := 0; i < u.NumFields(); i++ {
+				if isLoc(u.Field(i).Type()) {
+					holds = true
+				}
+			}
+		}
+		if holds {
+			wrappers = append(wrappers, name)
+		}
+	}
+	var ts *ast.TypeSwitchStmt
+	ast.Inspect(fd.Body, func(n ast.Node) bool {
+		if t, ok := n.(*ast.TypeSwitchStmt); ok && ts == nil {
+			ts = t
+		}
+		return ts == nil
+	})
+	if ts == nil {
+		r.Und("COMPLETE-WRAPPERS", "gts.asComplete|switch", p.Pos(fd.Pos()), "no type switch over the location kinds")
+		return
+	}
+	self, _ := info.Defs[fd.Name].(*types.Func)
+	handled := map[string]bool{}
+	for _, st := range ts.Body.List {
+		cc := st.(*ast.CaseClause)
+		recurses := false
+		for _, s := range cc.Body {
+			for _, c := range core.Calls(s) {
+				if core.Callee(info, c) == self {
+					recurses = true
+				}
+			}
+		}
+		for _, e := range cc.List {
+			if t := info.TypeOf(e); t != nil && recurses {
+				handled[types.TypeString(t, func(*types.Package) string { return "" })] = true
+			}
+		}
+	}
+	for _, w := range wrappers {
+		key := "gts.asComplete|kind=" + w
+		if handled[w] {
+			r.Ok("COMPLETE-WRAPPERS", key, p.Pos(ts.Pos()), "converted through its inner location(s)")
+		} else {
+			r.Bad("COMPLETE-WRAPPERS", key, p.Pos(ts.Pos()), fmt.Sprintf("asComplete has no clause that looks inside a %s: a source feature whose location is a %s keeps the partial markers slicing gave it (`source complement(1..20)` sliced to [5,10) is written `complement(<1..>5)`, the same feature on the forward strand `1..5`)", w, w))
+		}
+	}
+	if len(wrappers) == 0 {
+		r.Und("COMPLETE-WRAPPERS", "gts.asComplete|kinds", p.Pos(fd.Pos()), "no Location kind that contains Locations found in package gts")
+	}
+}
